@@ -33,6 +33,8 @@ type c01RaceScenario struct {
 	Held     bool   `json:"v1_held_for_predecessor"`
 	Resend   bool   `json:"resend_after"`
 	Stalled  bool   `json:"stall_point_reached"`
+	V2Parts  int    `json:"v2_parts_sent_before_restart,omitempty"` // held v1 + partly received v2 + receiver restart
+	Restart  bool   `json:"receiver_restart,omitempty"`
 }
 
 func runC01Race(c *Ctx) {
@@ -126,8 +128,12 @@ func c01RaceRun(c *Ctx, idx int, rng *rand.Rand, sc *c01RaceScenario, dir string
 		}
 		return out
 	}
+	limit := -1 // how many parts of the next transmission arrive (-1: all)
 	send := func(data []byte, hash string, parts int, corrupt bool, prev string) {
 		tiles := tile(int64(len(data)), parts)
+		if limit >= 0 && limit < len(tiles) {
+			tiles = tiles[:limit]
+		}
 		fed := data
 		if corrupt {
 			fed = append([]byte{}, data...)
@@ -146,13 +152,32 @@ func c01RaceRun(c *Ctx, idx int, rng *rand.Rand, sc *c01RaceScenario, dir string
 	}
 	// version 1 arrives; its pipeline runs on the Stage's worker goroutines and stops at the stall point
 	send(v1, h1, sc.Parts1, sc.Corrupt == "v1", prev)
+	if sc.Held && sc.Parts2 > 1 && rng.Intn(2) == 0 {
+		// version 1 is held for its predecessor; only some parts of version 2 arrive;
+		// then the receiver is restarted (new Stage + Recover over the same directories)
+		sc.Restart = true
+		sc.V2Parts = 1 + rng.Intn(sc.Parts2-1)
+		limit = sc.V2Parts
+	}
 	// ... and version 2 arrives while it is there
 	send(v2, h2, sc.Parts2, sc.Corrupt == "v2", prev)
+	limit = -1
 	raceDone.Store(true)
 	sc.Stalled = stalled.Load()
 	synctest.Wait()
 	time.Sleep(15 * time.Second)
 	synctest.Wait()
+	var before []delivered
+	if sc.Restart {
+		before = append(before, rs.Disp.Events()...)
+		rs.restamp()
+		rs.reboot(false)
+		rs.Dom.Before = nil
+		rs.Stage.Recover()
+		synctest.Wait()
+		time.Sleep(15 * time.Second)
+		synctest.Wait()
+	}
 	if sc.Held {
 		// release the predecessor
 		pd := []byte("predecessor")
@@ -191,7 +216,7 @@ func c01RaceRun(c *Ctx, idx int, rng *rand.Rand, sc *c01RaceScenario, dir string
 	if b, err := os.ReadFile(filepath.Join(rs.FinalDir, name)); err == nil {
 		check("final directory", b)
 	}
-	for _, d := range rs.Disp.Events() {
+	for _, d := range append(before, rs.Disp.Events()...) {
 		if d.Rel != name {
 			continue
 		}
